@@ -80,13 +80,33 @@ func (c *Cache) VerifIdle() bool {
 	}
 	for _, e := range c.eventSubs {
 		e.mu.Lock()
-		busy := len(e.queue) > 0 || e.locks != nil
+		// While a query event lock is held the queue legitimately waits for
+		// the answers to the query requests; only pending unlock closures
+		// count as work (see VerifLockRemaining for the expected answers).
+		busy := len(e.locks) > 0 || (e.locks == nil && len(e.queue) > 0)
 		e.mu.Unlock()
 		if busy {
 			return false
 		}
 	}
 	return true
+}
+
+// VerifLockRemaining returns the number of unlock calls the query event locks
+// of all entries are still waiting for (one per unanswered query request or
+// skipped query).
+func (c *Cache) VerifLockRemaining() int {
+	c.mu.Lock()
+	defer c.mu.Unlock()
+	n := 0
+	for _, e := range c.eventSubs {
+		e.mu.Lock()
+		if e.locks != nil {
+			n += cap(e.locks)
+		}
+		e.mu.Unlock()
+	}
+	return n
 }
 
 // VerifSubRef identifies a subscriber of a cached resource.
